@@ -204,6 +204,11 @@ pub fn code_7702(rng: &mut Prng, n_eoa: usize, base: usize, hot_slots: u64, pre_
         auth_tx(3, rs[3], vec![(Some(authority), t1, 0, 0), (Some(authority), t2, 1, 1)], "7702-repeated-authority"),
         auth_tx(4, rs[4], vec![(Some(authority), t1, 0, 0), (Some(other), t2, 0, 0)], "7702-two-authorities"),
         auth_tx(5, rs[5], vec![(Some(authority), t2, 3, 0)], "7702-wrong-nonce"),
+        // stale authority nonce: rejected in order (an earlier authorisation consumed it) but valid for
+        // a speculative attempt that runs before that earlier transaction has published
+        auth_tx(12, rs[12], vec![(Some(authority), t1, -1, 0)], "7702-stale-nonce-t1"),
+        auth_tx(13, rs[13], vec![(Some(authority), t2, -1, cs[13])], "7702-stale-nonce-t2"),
+        auth_tx(14, rs[14], vec![(Some(authority), Address::ZERO, -1, 0)], "7702-stale-nonce-clear"),
         auth_tx(6, rs[6], vec![(Some(authority), t2, 0, 5)], "7702-wrong-chain"),
         auth_tx(7, rs[7], vec![(None, t1, 0, 0), (Some(authority), t1, 0, 0)], "7702-invalid-signature-then-valid"),
         auth_tx(8, authority, vec![(Some(authority), t1, 0, 0)], "7702-self-sponsored"),
@@ -396,4 +401,48 @@ pub fn reserve_template(rng: &mut Prng, n_eoa: usize, base: usize, pre_state: &m
         );
     }
     ReservePlan { intents, delegated }
+}
+
+
+// ------------------------------------------------------------------------------------------------
+// C01 / C02: conflict-dense template. One "universal" contract whose every call performs a direct
+// read, a direct write, a pointer write and a pointer read, all with calldata-selected keys from a
+// tiny domain. Data-dependent locations make write sets change between incarnations (withdrawn
+// writes), reads resolve to writers that later move, and chains of re-executions are the norm.
+// ------------------------------------------------------------------------------------------------
+
+pub fn conflict_dense(rng: &mut Prng, n_eoa: usize, base: usize, max_txs: usize, pre_state: &mut Vec<AccountSpec>) -> Vec<Intent> {
+    let u = contract(base);
+    let and3 = |e: Expr| Expr::And(Box::new(e), Box::new(imm(3)));
+    let program = vec![
+        // direct read of key a
+        Stmt::Mix(sload(Expr::CallData(0))),
+        // pointer read: slot[base_r + (slot[p_r] & 3)]
+        Stmt::Mix(sload(add(Expr::CallData(6), and3(sload(Expr::CallData(7)))))),
+        // direct write: slot[b] = v (+ what was read, so values depend on reads)
+        Stmt::Sstore(Expr::CallData(1), add(Expr::CallData(2), and3(Expr::Acc))),
+        // pointer write: slot[base_w + (slot[p_w] & 3)] = w
+        Stmt::Sstore(add(Expr::CallData(3), and3(sload(Expr::CallData(4)))), Expr::CallData(5)),
+    ];
+    let mut storage: Vec<(u64, u64)> = vec![(0, rng.below(4)), (1, rng.below(4)), (2, rng.below(4))];
+    for k in 100..104 {
+        storage.push((k, 1 + rng.below(5)));
+    }
+    pre_state.push(contract_account(u, &program, &storage, 0));
+    let n = rng.range(3, max_txs.max(3) as u64) as usize;
+    let mut out = Vec::new();
+    for i in 0..n {
+        let junk = 1000 + 10 * i as u64;
+        let hot = |rng: &mut Prng| *rng.pick(&[0u64, 0, 1, 2]);
+        let tgt = |rng: &mut Prng| 100 + rng.below(4);
+        // each of the four operations is either aimed at the hot domain or parked on a private slot
+        let a = match rng.below(4) { 0 => junk, 1 => tgt(rng), _ => hot(rng) };
+        let b = match rng.below(4) { 0 | 1 => junk + 1, 2 => tgt(rng), _ => hot(rng) };
+        let v = rng.below(4);
+        let (base_w, p_w) = if rng.chance(1, 2) { (100, hot(rng)) } else { (junk + 2, junk + 3) };
+        let w = 1 + rng.below(6);
+        let (base_r, p_r) = if rng.chance(1, 2) { (100, hot(rng)) } else { (junk + 4, junk + 5) };
+        out.push(Intent::call(rng.below(n_eoa as u64) as usize, u, &[a, b, v, base_w, p_w, w, base_r, p_r], "dense"));
+    }
+    out
 }
